@@ -100,6 +100,17 @@ def judge(ctx, hs, recs):
                 if os.environ.get("VERIF_DEBUG"):
                     print(json.dumps(tr))
     ctx.traces += len(recs)
+    # which logged protocol events (= ContainerProto actions) the real runs exercised
+    seen = ctx.cov.setdefault("events_seen_in_real_runs", {})
+    for r in recs:
+        for side, evs in (("host", r["host"]), ("init", r["init"])):
+            for e in evs:
+                k = "%s.%s" % (e.get("side", side), e.get("ev"))
+                for f in ("k", "b", "r", "res", "ok"):
+                    if f in e and e[f] not in ("", None):
+                        k += ":%s" % e[f]
+                        break
+                seen[k] = seen.get(k, 0) + 1
     ctx.cov["drift"] = ctx.cov.get("drift", 0) + ndrift
     return nbad, ndrift
 
